@@ -229,8 +229,7 @@ func init() {
 			"instance identity is compared relationally (canonical renumbering of pointers / serials within one history)",
 		},
 		BudgetQuick: 280 * time.Second, BudgetThorough: 1500 * time.Second,
-		Prepare:     PrepareUniverse,
-		CaseTimeout: 900 * time.Second,
+		Prepare: PrepareUniverse,
 		Run: func(w *W) {
 			dags3 := c05dags(3)
 			scopeVecs := func(n int, f func([]int)) {
